@@ -423,6 +423,10 @@ public:
         if (!basic::varint_.parse(iter, last, ctx, rctx, props_length))
             return false;
 
+        // the property block must lie inside the packet
+        if (props_length > std::distance(iter, last))
+            return false;
+
         const It scoped_last = iter + props_length;
         // attr = Props{};
 
